@@ -135,13 +135,20 @@ fn tc(t: &TC) -> TrackCross {
 }
 fn build(m: &MLib) -> tet::library::Library {
     let mut ptrs: Vec<Ptr<Cell>> = vec![];
-    for c in &m.cells {
+    for (ci, c) in m.cells.iter().enumerate() {
         // built field by field: whether the importer accepts a documented-valid outline is part of the check
         let outline = Outline { x: c.ox.iter().map(|v| tet::coords::PrimPitches::x(*v as isize)).collect(), y: c.oy.iter().map(|v| tet::coords::PrimPitches::y(*v as isize)).collect() };
         let mut cell = Cell::new(c.name.clone());
         if c.has_layout {
             // a view's own name need not be the cell's (every third cell: distinct view names)
-            let view_name = if c.name.len() % 3 == 0 || c.metals % 3 == 1 { format!("{}_impl", c.name) } else { c.name.clone() };
+            // ... and now and then it is the name of another, earlier cell (a layout cloned from it and never renamed)
+            let view_name = if ci > 0 && (c.metals + c.insts.len() + ci) % 6 == 2 {
+                m.cells[(c.insts.len() + c.metals) % ci].name.clone()
+            } else if c.name.len() % 3 == 0 || c.metals % 3 == 1 {
+                format!("{}_impl", c.name)
+            } else {
+                c.name.clone()
+            };
             let mut l = Layout::new(view_name, c.metals, outline.clone());
             for i in &c.insts {
                 l.instances.add(Instance { inst_name: i.name.clone(), cell: ptrs[i.target].clone(), loc: Place::Abs((i.loc.0 as isize, i.loc.1 as isize).into()), reflect_horiz: i.rh, reflect_vert: i.rv });
